@@ -150,9 +150,9 @@ func init() {
 			runSpecs(c, c15Specs(c.Quick()))
 			c.Cov["rule_schedules"] = "E1 (beyond the statement's quantifier; scenario bodies of C01): melts, polls and swaps overlapping on one quote / one proof; in every execution a proof consumed by a melt whose payment succeeded or is in flight is reported SPENT or PENDING by the final state check"
 			if c.Quick() {
-				runSched(c, "C15", []string{"S10-melt-poll-swap", "S12f-meltfails-remelt-swap"}, 2)
+				runSched(c, "C15", []string{"S6-pendingmelt-poll-swap", "S10-melt-poll-swap", "S12f-meltfails-remelt-swap"}, 2)
 			} else {
-				runSchedAll(c, "C15", []string{"S10-melt-poll-swap", "S12f-meltfails-remelt-swap"}, 2)
+				runSchedAll(c, "C15", []string{"S6-pendingmelt-poll-swap", "S10-melt-poll-swap", "S12f-meltfails-remelt-swap"}, 2)
 			}
 		},
 		Worker: dispatchWorker(bfs.Worker(c15All)),
